@@ -1,7 +1,7 @@
 (** C12 — a spec-driven client enforces exactly the limits it advertises.
     Only statements live here; each is closed by [exact] of a lemma proved in AdvEnf/. *)
 From Coq Require Import List ZArith Bool.
-From V Require Import Gen.Params Wire.Varint Wire.VarintProofs AdvEnf.Model AdvEnf.Proofs AdvEnf.Parrots.
+From V Require Import Gen.Params Wire.Varint Wire.VarintProofs AdvEnf.Model AdvEnf.Proofs AdvEnf.Parrots AdvEnf.Compose.
 Import ListNotations.
 Open Scope Z_scope.
 
@@ -188,3 +188,76 @@ Example C12_cid_rotation_at_limit_ok :
          advenf_all_specs.
 Proof. exact cid_rotation_fine. Qed.
 Print Assumptions C12_cid_rotation_at_limit_ok.
+
+(** Round 3. After any history of grants, what the client enforces is what it last advertised:
+    for every counter of the game, in every history whose events are within the peer's credit
+    and whose grants raise the enforced window ([run_st]), the enforced window and the peer's
+    credit both equal the last granted value (or are what they were if no grant touched the
+    counter). The "grants raise the window and the new window is the value sent" part is not an
+    assumption any more: it is what C04 and C15 prove about the code's flow controllers and
+    streams map, see the three composition theorems below. *)
+Theorem C12_enforced_equals_last_advertised : forall e h s s', inv s -> run_st e s h = Some s' ->
+  forall k,
+    match last_grant k h with
+    | Some w => rw (s' k) = w /\ cr (s' k) = w
+    | None => rw (s' k) = rw (s k) /\ cr (s' k) = cr (s k)
+    end.
+Proof. exact grants_sync. Qed.
+Print Assumptions C12_enforced_equals_last_advertised.
+
+Theorem C12_enforced_stays_equal_to_advertised : forall e h s s',
+  (forall k, rw (s k) = cr (s k)) -> run_st e s h = Some s' -> forall k, rw (s' k) = cr (s' k).
+Proof. exact grants_keep_equal. Qed.
+Print Assumptions C12_enforced_stays_equal_to_advertised.
+
+Example C12_grant_history_exists :
+  let a := advertised advenf_spec_Chrome_146_IPv4 in
+  let e := mkEnv a (enforced_spec a default_config) in
+  option_map (fun s' => [rw (s' KSD2); cr (s' KSD2); rw (s' KSU); cr (s' KSU); rw (s' KSD1) - cr (s' KSD1)])
+    (run_st e (init e)
+      [EvData 2 3000000; EvGrant KSD2 9291456; EvGrant KConn 18728640; EvData 2 6291456; EvOpen 2 102;
+       EvGrant KSU 104; EvOpen 2 1; EvCID 1; EvRetireCID; EvCID 1])
+  = Some [9291456; 9291456; 104; 104; 0].
+Proof. exact grants_example. Qed.
+Print Assumptions C12_grant_history_exists.
+
+(** Composition with C04 (FlowCtl) and C15 (StreamsMap): in every reachable state of their models
+    a non-zero GetWindowUpdate / a queued MAX_STREAMS is an increasing grant of the game, after
+    which the component enforces exactly the value sent ([grant_ctr] is [client_step]'s EvGrant). *)
+Theorem C12_stream_window_update_is_grant : forall cw cmax s g i x st now rtt fast al c,
+  0 < cw -> FI.reach cw cmax s g -> FI.valid_index s i ->
+  nth_error (FI.gs g) (Z.to_nat i) = Some x -> nth_error (F.streams s) (Z.to_nat i) = Some st ->
+  rw c = F.receiveWindow (F.sb st) -> cr c <= rw c ->
+  let v := fst (snd (F.step s (F.SWinUpd i now rtt fast al))) in
+  v <> 0 ->
+  exists st', nth_error (F.streams (fst (F.step s (F.SWinUpd i now rtt fast al)))) (Z.to_nat i) = Some st' /\
+    rw c < v /\ rw (grant_ctr c v) = F.receiveWindow (F.sb st') /\ rw (grant_ctr c v) = v /\ cr (grant_ctr c v) = v.
+Proof. exact stream_update_is_grant. Qed.
+Print Assumptions C12_stream_window_update_is_grant.
+
+Theorem C12_conn_window_update_is_grant : forall cw cmax s g now rtt fast al c,
+  0 < cw -> FI.reach cw cmax s g ->
+  rw c = F.receiveWindow (F.conn s) -> cr c <= rw c ->
+  let v := fst (snd (F.step s (F.CWinUpd now rtt fast al))) in
+  v <> 0 ->
+  rw c < v /\
+  rw (grant_ctr c v) = F.receiveWindow (F.conn (fst (F.step s (F.CWinUpd now rtt fast al)))) /\
+  rw (grant_ctr c v) = v /\ cr (grant_ctr c v) = v.
+Proof. exact conn_update_is_grant. Qed.
+Print Assumptions C12_conn_window_update_is_grant.
+
+Theorem C12_max_streams_is_grant : forall uni client N m op m' r fr c,
+  0 <= N -> SI.ireach uni client N m ->
+  SI.iop_ok (SM.first_incoming uni client) op -> SM.istep m op = (m', r, fr) -> fr <> [] ->
+  rw c = SI.in_adv m -> cr c <= rw c ->
+  exists n, fr = [SM.FMax (SM.i_uni m) n] /\
+    rw c < n /\ rw (grant_ctr c n) = SI.in_adv m' /\ rw (grant_ctr c n) = n /\ cr (grant_ctr c n) = n /\
+    (forall id, SI.on_lattice (SM.first_incoming uni client) id ->
+       (snd (SM.in_get_or_open m id) = SM.RErr SM.ErrLimit <-> rw c < SM.id_stream_num id)).
+Proof. exact max_streams_is_grant. Qed.
+Print Assumptions C12_max_streams_is_grant.
+
+Theorem C12_grant_ctr_is_client_step : forall e s k w,
+  client_step e s (EvGrant k w) = (upd s k (grant_ctr (s k) w), None).
+Proof. exact client_step_grant. Qed.
+Print Assumptions C12_grant_ctr_is_client_step.
